@@ -19,7 +19,7 @@ CONTRACTS = ['klepto._archives.{file_archive,dir_archive,sqltable_archive}: __in
 RULE = ('one evaluation = one reader placement (same handle / fresh handle / fresh process / rebuilt from state / copy / unpickled) compared '
         'with the dict model after one write history; distinct_nontrivial = distinct (configuration, history) pairs')
 SCOPE = {
-    'quick': '9 persistent configurations (file pickle/json/source-text, dir pickle/compressed/memmap/json/source-text, sqlite table); 12 seeded '
+    'quick': '9 persistent configurations (file pickle/json/source-text, dir pickle/compressed/memmap/json/source-text, sqlite table); 7 fixed and 9 seeded '
              'write histories of <=8 operations over 8 keys (strings incl. "-"/"_", int, tuple, bytes where accepted) and 6 values (nested containers, '
              'floats incl. inf, bytes, None); plus snapshot and re-open probes',
     'thorough': 'as quick with 60 histories of <=12 operations',
@@ -28,8 +28,12 @@ ASSUMPTIONS = ['bounded scope, not a proof', 'the file system and sqlite show ev
                'directory is importable', 'keys/values restricted to what the backend accepts (json: str keys, JSON-native values; sqlite: basic types)']
 
 
+FIXED = [[('set', 0), ('set', 1), ('clear', 0)], [('set', 0), ('pop', 0)], [('set', 0), ('set', 1), ('pop', 1)],
+         [('update', 0), ('clear', 0), ('set', 2)], [('set', 0), ('update', 1)], [('set', 0), ('set', 0)], [('set', 3), ('clear', 0), ('clear', 0)]]
+
+
 def units(tier, seed):
-    n, ln = (60, 12) if tier == 'thorough' else (12, 8)
+    n, ln = (60, 12) if tier == 'thorough' else (16, 8)
     return [('hist', cid, n, ln, seed) for (cid, k, w, d) in AR.configs() if AR.is_persistent(cid)]
 
 
@@ -83,9 +87,16 @@ def run_unit(unit):
                 a = AR.open_archive(cid, root)
                 model = {}
                 hist = []
-                for step in range(rnd.randrange(2, ln + 1)):
+                # the first histories are fixed: they END in each kind of mutation (the last write of a session is the one
+                # a later session depends on); the rest are seeded
+                fixed = FIXED[h] if h < len(FIXED) else None
+                nsteps = len(fixed) if fixed else rnd.randrange(2, ln + 1)
+                for step in range(nsteps):
                     k = rnd.choice(keys)
                     r = rnd.random()
+                    if fixed:
+                        k = keys[fixed[step][1] % len(keys)]
+                        r = {'set': 0.1, 'pop': 0.6, 'update': 0.8, 'clear': 0.87, 'mut': 0.95}[fixed[step][0]]
                     if r < 0.55:
                         v = rnd.choice(values)
                         a[k] = v
